@@ -44,6 +44,8 @@ Viol(prop, sig) ==
 
 \* evaluate a predicate, report when it fails; always TRUE so that the fold goes on
 Check(prop, sig, ok) == IF ok THEN TRUE ELSE Viol(prop, sig)
+\* the same failing fact may breach several listed properties
+CheckAll(props, sig, ok) == IF ok THEN TRUE ELSE \A p \in props : Viol(p, sig)
 
 Deps(t) == {g.deps[t][i] : i \in 1..Len(g.deps[t])}
 Roots == {g.roots[i] : i \in 1..Len(g.roots)}
@@ -58,6 +60,10 @@ RECURSIVE ServiceBehind(_)
 ServiceBehind(t) == \/ g.kind[t] = "s"
                     \/ g.kind[t] = "a" /\ \E d \in Deps(t) : ServiceBehind(d)
 
+RECURSIVE BuildBehind(_)
+BuildBehind(t) == \/ g.kind[t] = "b"
+                  \/ g.kind[t] = "a" /\ \E d \in Deps(t) : BuildBehind(d)
+
 RECURSIVE SortedSeq(_)
 SortedSeq(S) == IF S = {} THEN <<>>
                 ELSE LET m == CHOOSE x \in S : \A y \in S : x <= y IN <<m>> \o SortedSeq(S \ {m})
@@ -71,6 +77,10 @@ StartOK(t) ==
   /\ \A d \in Deps(t) : \A k \in EK : word[t][d][k] = "ok"
   /\ ~g.watch => /\ \A d \in EffDeps(t) : ready[d]
                  /\ \A d \in TransDeps(t) : ~failed[d]
+\* which properties a premature start breaches: always C01; C11 when a service it needs is not up;
+\* C07 when something it depends on has failed
+StartProps(t) == {"C01"} \cup (IF ~g.watch /\ \E d \in EffDeps(t) : g.kind[d] = "s" /\ ~ready[d] THEN {"C11"} ELSE {})
+                        \cup (IF ~g.watch /\ \E d \in TransDeps(t) : failed[d] THEN {"C07"} ELSE {})
 \* C01: an aggregate forwards Ok{k} only when all its dependencies' last word for k is ok
 AggOK(t, k) == \A d \in Deps(t) : word[t][d][k] = "ok"
 \* C08
@@ -79,6 +89,10 @@ OnceOK(t) == /\ ~g.watch => nStart[t] + nSkip[t] = 0
 \* C04/C08/C20 at a successful one-shot end (exit 0 without signal, or waiting for the signal)
 CompleteOK == \A t \in Closure : /\ g.kind[t] = "b" => nStart[t] + nSkip[t] = 1 /\ ready[t]
                                  /\ g.kind[t] = "s" => nStart[t] = 1 /\ ready[t]
+\* C17: with never-finishing (slow) scripts parked, everything that does not depend on them is done
+Slow == {g.slow[i] : i \in 1..Len(g.slow)}
+IndependentOK == \A t \in Closure : (\A d \in TransDeps(t) \cup {t} : ~failed[d] /\ d \notin Slow)
+                                          => (g.kind[t] = "a" \/ ready[t])
 \* C06 at a quiescent point of a watch run
 Blocked(t) == \E d \in TransDeps(t) \cup {t} : failed[d]
 UpToDateOK(e) == \A t \in Closure : ~Blocked(t) =>
@@ -124,12 +138,12 @@ Step(e) ==
          /\ word' = IF e.ty \in {"ok", "inv"} THEN [word EXCEPT ![e.t][e.from][e.k] = e.ty] ELSE word
          /\ Keep(<<g, ready, failed, nStart, nSkip, inst, shells, lastRes, ver, gen, builtFrom, sees, signalled, rootErr, waited, begunOK>>)
     [] e.e = "begin" ->     \* the actor decided to run t (loop-top test passed)
-         /\ Check("C01", <<"start-before-deps-ready", e.t>>, StartOK(e.t))
+         /\ CheckAll(StartProps(e.t), <<"start-before-deps-ready", e.t>>, StartOK(e.t))
          /\ begunOK' = [begunOK EXCEPT ![e.t] = StartOK(e.t)]
          /\ Keep(<<g, word, ready, failed, nStart, nSkip, inst, shells, lastRes, ver, gen, builtFrom, sees, signalled, rootErr, waited>>)
     [] e.e = "start" ->
          \* F10: a dependency's out-of-date notice arriving between the decision and the spawn is a known finding
-         /\ Check("C01", <<IF begunOK[e.t] THEN "invalidated-between-decision-and-spawn" ELSE "start-before-deps-ready", e.t>>, StartOK(e.t))
+         /\ CheckAll(StartProps(e.t), <<IF begunOK[e.t] THEN "invalidated-between-decision-and-spawn" ELSE "start-before-deps-ready", e.t>>, StartOK(e.t))
          /\ Check("C08", <<"executed-twice-or-outside-closure", e.t>>, OnceOK(e.t))
          /\ Check("C08", <<"two-build-shells", e.t>>, shells[e.t] = 0)
          /\ nStart' = [nStart EXCEPT ![e.t] = @ + 1]
@@ -154,7 +168,7 @@ Step(e) ==
                       ELSE IF e.res \in {"completed", "skipped"} THEN [failed EXCEPT ![e.t] = FALSE] ELSE failed
          /\ Keep(<<g, word, nStart, nSkip, inst, shells, ver, gen, builtFrom, sees, signalled, rootErr, waited, begunOK>>)
     [] e.e = "svcstart" ->
-         /\ Check("C01", <<"service-start-before-deps-ready", e.t>>, StartOK(e.t))
+         /\ CheckAll(StartProps(e.t), <<"service-start-before-deps-ready", e.t>>, StartOK(e.t))
          /\ Check("C08", <<"service-outside-closure-or-twice", e.t>>, e.t \in Closure /\ (~g.watch => nStart[e.t] = 0))
          /\ Check("C11", <<"two-instances", e.t>>, inst[e.t] = {})
          /\ inst' = [inst EXCEPT ![e.t] = @ \cup {e.pid}]
@@ -170,8 +184,11 @@ Step(e) ==
          /\ failed' = [failed EXCEPT ![e.t] = TRUE]
          /\ Keep(<<g, word, ready, nStart, nSkip, inst, shells, lastRes, ver, gen, builtFrom, sees, signalled, rootErr, waited, begunOK>>)
     [] e.e = "send" ->
-         /\ Check("C01", <<"aggregate-forwards-early", e.t, e.k>>,
+         /\ CheckAll({"C01", "C20"} \cup (IF e.k = "s" THEN {"C11"} ELSE {}), <<"aggregate-forwards-early", e.t, e.k>>,
                   (g.kind[e.t] = "a" /\ e.ty = "ok") => AggOK(e.t, e.k))
+         /\ CheckAll({"C11", "C20"}, <<"aggregate-wrong-actual-flag", e.t, e.k>>,
+                  (g.kind[e.t] = "a" /\ e.ty = "ok" /\ AggOK(e.t, e.k)) =>
+                      (e.act <=> \E d \in Deps(e.t) : IF e.k = "s" THEN ServiceBehind(d) ELSE BuildBehind(d)))
          /\ Check("C07", <<"ok-from-failed-target", e.t>>,
                   (g.kind[e.t] # "a" /\ e.ty = "ok" /\ e.act) => ~failed[e.t] /\ ready[e.t])
          /\ Check("C11", <<"wrong-actual-flag", e.t, e.k>>,
@@ -188,7 +205,7 @@ Step(e) ==
          /\ signalled' = TRUE
          /\ Keep(<<g, word, ready, failed, nStart, nSkip, inst, shells, lastRes, ver, gen, builtFrom, sees, rootErr, waited, begunOK>>)
     [] e.e = "waitsig" ->
-         /\ Check("C11", <<"kept-alive-without-requested-service">>, \E r \in Roots : ServiceBehind(r))
+         /\ CheckAll({"C11", "C20"}, <<"kept-alive-without-requested-service">>, \E r \in Roots : ServiceBehind(r))
          /\ Check("C04", <<"waiting-for-signal-before-everything-ran">>, CompleteOK)
          /\ waited' = TRUE
          /\ Keep(<<g, word, ready, failed, nStart, nSkip, inst, shells, lastRes, ver, gen, builtFrom, sees, signalled, rootErr, begunOK>>)
@@ -201,14 +218,17 @@ Step(e) ==
                   (~g.watch /\ e.status = 0 /\ ~signalled) => \A t \in Closure : ~failed[t])
          /\ Check("C07", <<"exit-status-1-without-failure">>,
                   e.status = 1 => (rootErr # 0 /\ failed[rootErr]))
-         /\ Check("C04", <<"exit-0-before-everything-ran">>,
+         /\ CheckAll({"C04", "C08", "C20"}, <<"exit-0-before-everything-ran">>,
                   (~g.watch /\ e.status = 0 /\ ~signalled) => CompleteOK)
-         /\ Check("C11", <<"exit-without-signal-while-service-requested">>,
+         /\ CheckAll({"C11", "C20"}, <<"exit-without-signal-while-service-requested">>,
                   (~g.watch /\ e.status = 0 /\ ~signalled) => ~\E r \in Roots : ServiceBehind(r))
          /\ Check("C06", <<"watch-exit-without-signal">>, g.watch => signalled)
          /\ UNCHANGED mon
     [] e.e = "end" ->       \* the driver certifies that nothing is enabled (or stopped the run)
-         /\ Check("C04", <<"stuck-waiting-for-acknowledgement", e.status>>, e.status # "stuck")
+         /\ CheckAll({"C04"} \cup (IF \E r \in Roots : g.kind[r] = "a" THEN {"C20"} ELSE {}),
+                     <<"stuck-waiting-for-acknowledgement", e.status>>, e.status # "stuck")
+         /\ Check("C17", <<"independent-target-not-run-while-slow-script-runs">>,
+                  (~g.watch /\ e.status = "idle" /\ ~signalled /\ ~waited) => IndependentOK)
          /\ Check("C10", <<"signal-not-honoured", e.status>>, e.status # "stall-after-signal")
          /\ Check("C17", <<"stall", e.status>>, e.status # "stall")
          /\ Check("C06", <<"quiescent-but-not-up-to-date">>, (g.watch /\ e.status = "idle" /\ ~signalled) => UpToDateOK(e))
